@@ -5,6 +5,7 @@ package main
 import (
 	"context"
 	"encoding/json"
+	"fmt"
 	"math/rand"
 
 	eb "github.com/jilio/ebu"
@@ -18,6 +19,9 @@ func (nV) EventTypeName() string { return "custom.v" }
 type nR struct{ N int }           // custom name on a pointer receiver
 func (*nR) EventTypeName() string { return "custom.r" }
 
+type nD struct{ N int }            // custom name that depends on the value (a version in the name)
+func (d nD) EventTypeName() string { return fmt.Sprintf("custom.d%d", d.N%2) }
+
 type nW struct{ M int }          // upcast target with its own custom name
 func (nW) EventTypeName() string { return "custom.w" }
 
@@ -30,15 +34,18 @@ func runNameShape[T any](mk func(i int) T) T_obs {
 	eb.Publish(bus, x2)
 	evs, _, _ := store.Read(ctx, eb.OffsetOldest, 0)
 	o := T_obs{storedIsEventType: len(evs) == 2}
-	for _, e := range evs {
-		if e.Type != eb.EventType(x1) {
+	want := []string{eb.EventType(x1), eb.EventType(x2)} // per event: the name may depend on the value
+	for i, e := range evs {
+		if i < 2 && e.Type != want[i] {
 			o.storedIsEventType = false
 		}
 	}
+	k := 0
 	bus.Replay(ctx, eb.OffsetOldest, func(e *eb.StoredEvent) error {
-		if e.Type == eb.EventType(x1) {
+		if k < 2 && e.Type == want[k] {
 			o.replayCompare++
 		}
+		k++
 		return nil
 	})
 	// restart: a fresh bus over the same store, typed replay subscription
@@ -100,9 +107,10 @@ func init() {
 		},
 		func() T_obs { return runNameShape(func(i int) state.ControlMessage { return *state.Reset("o") }) },
 		func() T_obs { return runNameShape(func(i int) *state.ControlMessage { return state.Reset("o") }) },
+		func() T_obs { return runNameShape(func(i int) nD { return nD{i} }) },
 	}
 	names := []string{"value/no-namer", "value/value-receiver", "value/pointer-receiver", "pointer/no-namer", "pointer/value-receiver",
-		"pointer/pointer-receiver", "state.ChangeMessage", "*state.ChangeMessage", "state.ControlMessage", "*state.ControlMessage"}
+		"pointer/pointer-receiver", "state.ChangeMessage", "*state.ChangeMessage", "state.ControlMessage", "*state.ControlMessage", "value/value-dependent-name"}
 	register(&Family{Name: "names", Quick: len(shapes), Thorough: len(shapes), Directed: len(shapes),
 		Run: func(rng *rand.Rand, idx int, tier string) Case {
 			o := shapes[idx]()
